@@ -63,6 +63,9 @@ class Ctx:
         return os.path.join(self.scratch, name)
 
     def cleanup(self):
+        if os.environ.get("VERIF_KEEP"):
+            print("scratch kept:", self.scratch, flush=True)
+            return
         shutil.rmtree(self.scratch, ignore_errors=True)
 
     def log(self, *a):
